@@ -34,8 +34,8 @@ TOL = 1e-9
 
 
 def bounds(tier):
-    return dict(quick=dict(depth=dict(curve=3, surface=2, volume=2, container=3), seeds_per_class=1),
-                thorough=dict(depth=dict(curve=4, surface=3, volume=3, container=4), seeds_per_class=2))[tier]
+    return dict(quick=dict(depth=dict(curve=3, surface=2, volume=2, container=3, sampling=3), seeds_per_class=1),
+                thorough=dict(depth=dict(curve=4, surface=3, volume=3, container=4, sampling=4), seeds_per_class=2))[tier]
 
 
 # ----------------------------------------------------------------------------------------
@@ -67,6 +67,9 @@ def gen_cases(tier, seed):
                                     depth=b['depth'][kind]))
     for kind in ('curve', 'surface'):
         systems.append(dict(mode='bfs', system='container', kind=kind, depth=b['depth']['container']))
+    for kind, rational in (('surface', False), ('surface', True), ('volume', False)):
+        systems.append(dict(mode='bfs', system='sampling', kind=kind, rational=rational, seed_index=0,
+                            depth=b['depth']['sampling']))
     cases = []
     for sc in systems:
         cases.append(dict(sc, prefix=None))
@@ -236,6 +239,7 @@ class SplineSystem(object):
             if pd == 2:
                 ops += [['transpose'], ['flip']]
             ops += [['translate'], ['rotate'], ['scale'], ['evaluate']]
+        ops.append(['become_deepcopy'])
         return ops
 
     def _net(self, obj, which, sizes=None):
@@ -335,6 +339,8 @@ class SplineSystem(object):
                 operations.scale(obj, 2.5, inplace=True)
             elif k == 'evaluate':
                 obj.evaluate()
+            elif k == 'become_deepcopy':
+                _become_copy(obj)
             else:
                 raise RuntimeError("unknown op %r" % (op,))
         except RuntimeError:
@@ -352,7 +358,8 @@ class SplineSystem(object):
     def judge(self, ctx, hist, op, obj, obs, pre):
         feats = dict(kind=self.kind, rational=self.rational, op=op[0], op_arg=op[1] if len(op) > 1 else None,
                      depth=len(hist) + 1, last_mutator=_last_mutator(hist + [op]))
-        rc = dict(mode='history', system='spline', kind=self.kind, rational=self.rational,
+        rc = dict(mode='history', system='sampling' if isinstance(self, SamplingSystem) else 'spline', kind=self.kind,
+                  rational=self.rational,
                   seed_index=_seeds(self.kind, self.rational).index(self.desc), history=hist + [op])
         if isinstance(obs, str) and obs.startswith('EXC:'):
             ctx.extra['rejected_ops'] += 1
@@ -407,6 +414,14 @@ def _safe_read(obj, r):
         return 'EXC:' + type(e).__name__
 
 
+def _become_copy(obj):
+    """continue the history on a deep copy: the explored object takes over the complete state of its own
+    deep copy (whatever __deepcopy__ produced), so that copies are explored like any other state"""
+    new = copy.deepcopy(obj)
+    obj.__dict__.clear()
+    obj.__dict__.update(new.__dict__)
+
+
 def _plain_def(D):
     return dict(degrees=D['degrees'], kvs=D['kvs'], sizes=D['sizes'], P=D['P'], delta=D['delta'])
 
@@ -423,6 +438,43 @@ def _last_mutator(hist):
         if op[0] != 'read':
             return op[0]
     return None
+
+
+# ----------------------------------------------------------------------------------------
+# sampling sub-system: per-direction sampling density histories (deeper, small alphabet)
+# ----------------------------------------------------------------------------------------
+
+class SamplingSystem(SplineSystem):
+    """surfaces and volumes: sample_size_u/v/w, delta_u/v/w, sample_size (all directions), evaluate, readers.
+    Values are chosen so that settings of different directions collide (4 samples <-> delta 0.25)."""
+
+    def readers(self, D):
+        rs = ['evalpts', 'sample_size', 'delta', 'data']
+        if self.pd == 2:
+            rs.append('tess')
+        return rs
+
+    def ops(self, obj):
+        ops = [['read', 'evalpts'], ['read', 'sample_size']]
+        for a in range(self.pd):
+            ops += [['ss', a, 3], ['ss', a, 4], ['dl', a, 0.25]]
+        ops += [['ss_all', 3], ['ss_all', 4], ['evaluate']]
+        return ops
+
+    def apply(self, obj, op):
+        k = op[0]
+        try:
+            if k == 'ss':
+                setattr(obj, 'sample_size_' + 'uvw'[op[1]], op[2])
+            elif k == 'dl':
+                setattr(obj, 'delta_' + 'uvw'[op[1]], op[2])
+            elif k == 'ss_all':
+                obj.sample_size = op[1]
+            else:
+                return SplineSystem.apply(self, obj, op)
+        except Exception as e:
+            return 'EXC:' + type(e).__name__
+        return None
 
 
 # ----------------------------------------------------------------------------------------
@@ -469,6 +521,7 @@ class ContainerSystem(object):
         ops += [['transform', 'translate'], ['transform', 'scale']]
         if self.kind == 'surface':
             ops += [['transform', 'transpose']]
+        ops += [['become_deepcopy']]
         ops += [['edit_element', 'translate'], ['edit_element', 'sample_size']]
         return ops
 
@@ -489,6 +542,8 @@ class ContainerSystem(object):
                 obj.sample_size = op[1]
             elif k == 'tessellate_force':
                 obj.tessellate(force=True)
+            elif k == 'become_deepcopy':
+                _become_copy(obj)
             elif k == 'transform':
                 if op[1] == 'translate':
                     operations.translate(obj, [0.5, -1.0, 2.0], inplace=True)
@@ -561,6 +616,8 @@ class ContainerSystem(object):
 def _system(case, seed):
     if case['system'] == 'spline':
         return SplineSystem(case['kind'], case['rational'], case['seed_index'], seed)
+    if case['system'] == 'sampling':
+        return SamplingSystem(case['kind'], case['rational'], case['seed_index'], seed)
     return ContainerSystem(case['kind'], seed)
 
 
